@@ -18,6 +18,8 @@ REGISTRY = {
     "C05": ("harness.checks.rules_check", "C05"),
     "C15": ("harness.checks.schemes_check", "C15"),
     "C14": ("harness.checks.slobo_check", "C14"),
+    "C07": ("harness.checks.eval_check", "C07"),
+    "C09": ("harness.checks.sobolev_check", "C09"),
     "C04": ("harness.checks.pair_checks", "C04"),
     "C11": ("harness.checks.pair_checks", "C11"),
     "C12": ("harness.checks.pair_checks", "C12"),
